@@ -369,7 +369,7 @@ def desugar(x):
             tag, bs, body = x[1], x[2], x[3:]
             return desugar([["letrec", [[tag, ["lambda", [b[0] for b in bs]] + body]], tag]] + [b[1] for b in bs])
         bs, body = x[1], x[2:]
-        return [["lambda", [b[0] for b in bs]] + [desugar(b) for b in body]] + [desugar(b[1]) for b in bs]
+        return [["lambda", [b[0] for b in bs]] + [desugar(b) for b in splice_define_values(body)]] + [desugar(b[1]) for b in bs]
     if h == "let*":
         bs, body = x[1], x[2:]
         if not bs:
@@ -470,11 +470,64 @@ def desugar(x):
         r = fresh("mv")
         return [["lambda", [r], ["if", ["if", ["pair?", r], ["eq?", ["car", r], ["quote", "%mv"]], False],
                                  ["%apply", desugar(x[2]), ["cdr", r]], [desugar(x[2]), r]]], [desugar(x[1])]]
+    if h == "let-values":
+        # R7RS 7.3 / SRFI 11: every init is evaluated OUTSIDE the scope of all the variables; formals of any lambda shape.
+        # The values are received into fresh temporaries first, the variables are bound together at the end.
+        bs, body = x[1], x[2:]
+        m = {}
+        for fm, _ in bs:
+            for v in formals_vars(fm):
+                m[v] = fresh("lv")
+        allv = [v for fm, _ in bs for v in formals_vars(fm)]
+        inner = [["lambda", allv] + body] + [m[v] for v in allv]
+        for fm, e in reversed(bs):
+            inner = ["call-with-values", ["lambda", [], e], ["lambda", rename_formals(fm, m), inner]]
+        return desugar(inner)
+    if h == "let*-values":
+        bs, body = x[1], x[2:]
+        if not bs:
+            return desugar(["let", []] + body)
+        return desugar(["let-values", [bs[0]], ["let*-values", bs[1:]] + body])
     if h == "lambda":
-        return ["lambda", x[1]] + [desugar(b) for b in x[2:]]
+        return ["lambda", x[1]] + [desugar(b) for b in splice_define_values(x[2:])]
     if h == "define":
-        return ["define", x[1]] + [desugar(b) for b in x[2:]]
+        return ["define", x[1]] + [desugar(b) for b in (splice_define_values(x[2:]) if isinstance(x[1], list) else x[2:])]
     return [desugar(y) for y in x]
+
+
+def formals_vars(f):
+    return [f] if isinstance(f, str) else [v for v in f if v != "."]
+
+
+def rename_formals(f, m):
+    return m[f] if isinstance(f, str) else [v if v == "." else m[v] for v in f]
+
+
+def splice_define_values(forms):
+    """R7RS 5.3.3: (define-values formals e) = e evaluated once, the variables defined in order; SPEC side: the values are
+    received as a list into a fresh variable and taken apart (the real macro, lib/scheme/define-values.scm, stores the list in
+    the first variable and destructively unlinks it)"""
+    out = []
+    for f in forms:
+        if isinstance(f, list) and f and f[0] == "define-values":
+            fm, e = f[1], f[2]
+            t = fresh("dv")
+            out.append(["define", t, ["call-with-values", ["lambda", [], e], ["lambda", "%dvargs", "%dvargs"]]])
+            cur = t
+            if isinstance(fm, str):
+                out.append(["define", fm, t])
+                continue
+            i = 0
+            while i < len(fm):
+                if fm[i] == ".":
+                    out.append(["define", fm[i + 1], cur])
+                    break
+                out.append(["define", fm[i], ["car", cur]])
+                cur = ["cdr", cur]
+                i += 1
+        else:
+            out.append(f)
+    return out
 
 
 def qq(t):
@@ -718,7 +771,7 @@ APPLY_DEF = _apply_def()
 
 
 def uses_apply(x):
-    return isinstance(x, list) and (bool(x) and x[0] in ("apply", "call-with-values") or any(uses_apply(y) for y in x))
+    return isinstance(x, list) and (bool(x) and x[0] in ("apply", "call-with-values", "let-values", "let*-values", "define-values") or any(uses_apply(y) for y in x))
 
 
 def uses_head(x, h):
@@ -734,7 +787,7 @@ def program_to_model(forms, names):
             flat += f[1:]
         else:
             flat.append(f)
-    for f in flat:
+    for f in splice_define_values(flat):
         t = analyze_toplevel(desugar(f), ug)
         number_lambdas(t, [0])
         out.append(tree_wire(t, names))
@@ -1061,6 +1114,19 @@ POSITIONS = {
     "named-let-init": [["let", "lp", [["l", "o"], ["n", 0]], ["if", ["pair?", "l"], ["lp", ["cdr", "l"], ["+", "n", 1]], "n"]]],
     "let-init": [["let", [["z", "o"]], "z"]],
     "letrec-init": [["letrec", [["z", ["lambda", [], "o"]]], ["z"]]],
+    # round 4: the ONLY assignment sits in code simplify.c removes (constant test), so the lambda's set-vars keep a
+    # STALE entry for a variable the remaining body never mentions: sexp_rest_unused_p must consult the set-vars
+    # (the prologue still boxes the slot), /repo 7788b66
+    "set-dead-then": [["if", False, ["set!", "o", 5]], "a"],
+    "set-dead-then-quoted": [["if", Q(False), ["set!", "o", 5]], "a"],
+    "set-dead-else": [["if", True, "a", ["set!", "o", 5]]],
+    "set-dead-folded-test": [["if", ["<", 2, 1], ["set!", "o", 5]], "a"],
+    "set-dead-closure": [["if", False, ["lambda", [], ["set!", "o", 1]]], "a"],
+    "set-dead-then-read": [["if", False, ["set!", "o", 5]], "o"],
+    "set-dead-nested": [["if", ["=", "a", 1], ["if", False, ["set!", "o", 5], "a"], 0]],
+    "set-dead-before-other-set": [["if", False, ["set!", "o", 5]], ["set!", "a", 7], "a"],     # position of the stale entry in sv
+    "set-dead-after-other-set": [["set!", "a", 7], ["if", False, ["set!", "o", 5]], "a"],
+    "set-dead-between-sets": [["define", "k", 1], ["set!", "k", 2], ["if", False, ["set!", "o", 5]], ["set!", "a", 7], ["cons", "a", "k"]],
     "unused": ["a"],
     "shadowed": [[["lambda", ["o"], "o"], "a"]],
     "shadowed-rest": [[["lambda", "o", "o"], "a"]],
@@ -1100,6 +1166,10 @@ def rest_family(rng=None, per_pos=None):
         combos = [(c, n) for c in REST_CTXTS for n in (0, 1, 3)]
         if per_pos is not None:
             must = [("define", 1), ("fixed0", 1)]                  # the shapes of the simplest witnesses, always
+            if pos.startswith("set-dead") or pos.startswith("set-target"):
+                # a boxed write to slot #fixed of a procedure WITHOUT rest slot hits the caller's stack only when
+                # there is no surplus argument (with one, the slot is the dropped surplus argument itself)
+                must = must + [("define", 0), ("lambda", 0)]
             rest_ = [x for x in combos if x not in must]
             combos = must + [rest_[i] for i in sorted(rng.sample(range(len(rest_)), max(0, per_pos - len(must))))]
         for c, n in combos:
@@ -1413,6 +1483,94 @@ MISC_CASES = [
                                 lst("a", "k", "r")], lst(["f", 1, 2, 3], ["f", 4], 99)]),
     ("begin-empty-tail", [[["lambda", ["x"], ["begin", ["set!", "x", 1]], "x"], 0]]),
 ]
+
+
+MV_PRODUCERS = [         # (name, expression (may use the integer variable a = 1), number of values)
+    ("v0", ["values"], 0), ("v1", ["values", 11], 1), ("v2", ["values", 11, 12], 2), ("v3", ["values", 11, 12, 13], 3),
+    ("v4", ["values", 11, 12, 13, 14], 4), ("plain", 11, 1), ("pair", ["cons", 11, 12], 1), ("nil", NIL, 1),
+    ("if", ["if", ["=", "a", 1], ["values", 11, 12], ["values", 13, 14, 15]], 2),
+    ("if-else", ["if", ["=", "a", 0], ["values", 11, 12], ["values", 13, 14, 15]], 3),
+    ("proc", ["%p2", 11], 2), ("let", ["let", [["z", 11]], ["values", "z", 12, 13]], 3),
+    ("vals-of-pairs", ["values", ["cons", 1, 2], NIL, ["cons", 3, NIL]], 3),
+]
+MV_VARS = ["x", "y", "z", "w"]
+
+
+def mv_formals(n):
+    """every lambda-list shape that accepts exactly n values: n variables; k <= n variables + rest; a bare symbol"""
+    out = [("fix%d" % n, MV_VARS[:n])]
+    for k in range(1, n + 1):
+        out.append(("dot%d" % k, MV_VARS[:k] + [".", "r"]))
+    out.append(("sym", "r"))
+    return out
+
+
+def mv_case(pname, prod, fname, fm, ctxt):
+    """multiple values received by formals `fm` through one of the receiving forms; the program returns the list of the
+    variables, between two other values"""
+    vs = formals_vars(fm)
+    result = lst(*vs) if vs else 7
+    pre = [["define", ["%p2", "q"], ["values", "q", ["+", "q", 1]]]]
+    wrap = lambda body: pre + [["define", ["f", "a"]] + body, lst(["f", 1], 99)]
+    if ctxt == "cwv":
+        return wrap([["call-with-values", ["lambda", [], prod], ["lambda", fm, result]]])
+    if ctxt == "let-values":
+        return wrap([["let-values", [[fm, prod]], result]])
+    if ctxt == "let-values-2":       # a second binding whose init mentions a name the first binds: must see the OUTER variable
+        return pre + [["define", ["f", "a", "x"], ["let-values", [[fm, prod], [["u", ".", "v"], ["values", "x", "a", 5]]], lst(result, "u", "v")]],
+                      lst(["f", 1, 2], 99)]
+    if ctxt == "let*-values-2":      # sequential: the second init sees the first binding's variables
+        return pre + [["define", ["f", "a", "x"], ["let*-values", [[fm, prod], [["u", ".", "v"], ["values", "x", "a", 5]]], lst(result, "u", "v")]],
+                      lst(["f", 1, 2], 99)]
+    if ctxt == "define-values-top":
+        return pre + [["define", "a", 1], ["define-values", fm, prod], lst(result, 99)]
+    if ctxt == "define-values-body":  # internal: a closure defined AFTER reads the variables, one of them is assigned
+        setter = [["set!", vs[-1], ["cons", vs[-1], 0]]] if vs else []
+        return wrap([["define-values", fm, prod], ["define", ["get"], result]] + setter + [["get"]])
+    if ctxt == "define-values-then-define":   # the variables keep their values when later definitions follow
+        return wrap([["define-values", fm, prod], ["define", "k", 77], ["define", ["get"], lst(result, "k")], ["get"]])
+    raise ValueError(ctxt)
+
+
+MV_CTXTS = ["cwv", "let-values", "let-values-2", "let*-values-2", "define-values-top", "define-values-body", "define-values-then-define"]
+
+
+def mv_family(rng=None, keep=None):
+    out, must = [], []
+    for pname, prod, n in MV_PRODUCERS:
+        for fname, fm in mv_formals(n):
+            for c in MV_CTXTS:
+                k = "mv/%s/%s/%s" % (pname, fname, c)
+                (must if pname in ("v3", "v4", "v0") and c.startswith("define-values") else out).append((k, mv_case(pname, prod, fname, fm, c)))
+    if keep is not None and keep < len(out):
+        out = [out[i] for i in sorted(rng.sample(range(len(out)), keep))]
+    return must + out
+
+
+def arity_family():
+    """call-protocol boundaries (theorem call_arity_errors_agree_partial): callee kind x number of arguments from 0 to #fixed + 2;
+    too few -> `not enough args`, too many without rest -> `too many args`, otherwise the value; the callee is reached directly,
+    through a variable, in tail position and through apply"""
+    kinds = []
+    for n in range(0, 4):
+        ps = ["p%d" % i for i in range(n)]
+        res = lst(*ps) if ps else 7
+        kinds.append(("fixed%d" % n, ps, res, n, False))
+        kinds.append(("restused%d" % n, ps + [".", "r"] if ps else "r", lst(*(ps + ["r"])), n, True))
+        kinds.append(("restunused%d" % n, ps + [".", "r"] if ps else "r", res, n, True))
+        kinds.append(("reststale%d" % n, ps + [".", "r"] if ps else "r", ["begin", ["if", False, ["set!", "r", 5]], res], n, True))
+        kinds.append(("restset%d" % n, ps + [".", "r"] if ps else "r", ["begin", ["set!", "r", ["cons", 0, "r"]], lst(*(ps + ["r"]))], n, True))
+    out = []
+    for name, formals, body, n, variadic in kinds:
+        for k in range(0, n + 3):
+            args = [31 + i for i in range(k)]
+            lam = ["lambda", formals, body]
+            out.append(("arity/%s/direct/n%d" % (name, k), [lst([lam] + args, 99)]))
+            out.append(("arity/%s/global/n%d" % (name, k), [["define", "f", lam], lst(["f"] + args, 99)]))
+            if k in (max(n - 1, 0), n, n + 1):
+                out.append(("arity/%s/tail/n%d" % (name, k), [["define", "f", lam], ["define", ["g", "a"], ["f"] + args], lst(["g", 1], 99)]))
+                out.append(("arity/%s/apply/n%d" % (name, k), [["define", "f", lam], lst(["apply", "f", lst(*args)], 99)]))
+    return out
 
 
 def nary_family():
@@ -2055,7 +2213,12 @@ def run(ctx):
                        "internal define initialiser, sequence statement before / after an effect, final value after an effect, folded "
                        "arithmetic) x context {procedure body, top level, lambda literal, one lambda below}, (j) exactly-once evaluation "
                        "and binding of each operand of 1-4-ary calls (8 callee kinds + inlined primitives), (k) tail calls with 0-9 arguments "
-                       "out of frames with 0-3 parameters x callee protocol; a case is distinct by program text and non-trivial when it "
+                       "out of frames with 0-3 parameters x callee protocol, (l) multiple values: define-values (top level / internal) / "
+                       "let-values / let*-values / call-with-values x producer (0-4 values, plain value, pair, either branch of an if, through "
+                       "a procedure) x every lambda-list shape accepting that many values, (m) arity boundaries: callee {0-3 fixed "
+                       "parameters} x {no rest, rest used, unused, stale set-vars entry, assigned} x 0..#fixed+2 arguments x {literal, global, "
+                       "tail call, apply}; position classes of (d) include assignments that simplification removes (stale set-vars entry, "
+                       "at each position of the set-vars); a case is distinct by program text and non-trivial when it "
                        "contains a lambda or define")
     ctx.coq_obligations("Properties_C03")
     partial = False
@@ -2092,6 +2255,8 @@ def run(ctx):
         progs += chain_family(rng, 60 if q else None)
         progs += const_family(rng, quick=q)
         progs += argeval_family()
+        progs += mv_family(rng, 60 if q else None)
+        progs += arity_family()                      # 290 tiny programs: in full in both tiers
         tc = tailcall_family()
         progs += [tc[i] for i in sorted(rng.sample(range(len(tc)), 60))] if q else tc
     nrand = 500 if q else 20000
